@@ -15,6 +15,7 @@ from sim import core
 from sim.core import HarnessError
 from sim.fsseam import FsSeam
 from sim.ramses import code_factor, physical
+from sim.preds import gen_level_pred, level_func
 from sim.wcheck import Disk, compare_full, gen_world_params
 
 PROPERTY = "C01"
@@ -45,7 +46,17 @@ def prepare(tier):
 
 def generate(rng, tier):
     p = gen_world_params(rng, tier)
-    return {"world": p, "nout_arg": rng.choice(["explicit", "explicit", "minus1"]), "glob_seed": rng.getrandbits(32)}
+    case = {"world": p, "nout_arg": rng.choice(["explicit", "explicit", "minus1"]), "glob_seed": rng.getrandbits(32), "prior": None}
+    # the full load must not depend on what the dataset object was used for before (C15's concern, exercised here too)
+    if rng.random() < 0.2:
+        k = rng.choice(["level", "groups", "vars"])
+        if k == "level":
+            case["prior"] = {"level": gen_level_pred(rng, p["levelmin"], p["levelmax"])}
+        elif k == "groups":
+            case["prior"] = {"groups": rng.choice([["part"], ["sink"], ["mesh"], ["part", "sink"]])}
+        else:
+            case["prior"] = {"vars": rng.sample(["level", "dx", "density"] if "density" in p["hydro_vars"] else ["level", "dx"], 2)}
+    return case
 
 
 def describe(case):
@@ -72,7 +83,21 @@ def execute(case, stats):
         seam = FsSeam(glob_rng=core.rng_for(case["glob_seed"], "glob"))
         nout = -1 if case["nout_arg"] == "minus1" else p["nout"]
         try:
-            ds, out = disk.load(seam=seam, nout=nout)
+            ds = None
+            pr = case.get("prior")
+            if pr:
+                stats.inc("probe.full_load_after_an_earlier_load_on_the_same_dataset")
+                if "level" in pr:
+                    sel = {"mesh": {"level": level_func(pr["level"])}}
+                elif "groups" in pr:
+                    sel = list(pr["groups"])
+                else:
+                    sel = {"mesh": list(pr["vars"])}
+                try:
+                    ds, _ = disk.load(seam=FsSeam(), nout=nout, select=sel)
+                except Exception:
+                    ds = None  # the prior call itself is not the subject here
+            ds, out = disk.load(ds=ds, seam=seam, nout=nout)
         except Exception as e:
             import traceback
 
@@ -119,7 +144,7 @@ def measure(case):
     p = case["world"]
     return (p["ncpu"], p["levelmax"], p["ndim"], len(p["hydro_vars"]), int(bool(p["grav"])), int(bool(p["rt_vars"])), p["nboundary"],
             p["maxcells"], int(p["ghost_p"] * 10), int(p["part"] is not None) + int(p["sink"] is not None), len(p["siblings"]),
-            int(case["nout_arg"] == "minus1"), int(p["units"] != [1.0, 1.0, 1.0]), p["noutput"], int(p["key_quad"]))
+            int(case["nout_arg"] == "minus1"), int(p["units"] != [1.0, 1.0, 1.0]), p["noutput"], int(p["key_quad"]), int(bool(case.get("prior"))))
 
 
 def world_reductions(p):
@@ -174,3 +199,5 @@ def reductions(case, viol):
         yield dict(case, world=q)
     if case["nout_arg"] == "minus1":
         yield dict(case, nout_arg="explicit")
+    if case.get("prior"):
+        yield dict(case, prior=None)
